@@ -1355,6 +1355,8 @@ class QvmCpu:
         start -= 1
 
         try:
+            if start >= len(str1):
+                raise ValueError
             index = str1.index(str2, start)
         except ValueError:
             index = 0
